@@ -9,19 +9,7 @@ def mut(name, props, edits, expect, new_files=None):
 BM = "blockmanager.go"
 
 # ---- C01 ----
-mut("c01-drop-sanity-return", ["C01"], [(BM, '''			if err != nil {
-				log.Warnf("Header doesn't pass sanity check: "+
-					"%s -- disconnecting peer", err)
-				hmsg.peer.Disconnect()
-				return
-			}
-
-			node.Height = prevNode.Height + 1''', '''			if err != nil {
-				log.Warnf("Header doesn't pass sanity check: "+
-					"%s -- disconnecting peer", err)
-			}
-
-			node.Height = prevNode.Height + 1''')], ["C01.G1"])
+mut("c01-drop-sanity-return", ["C01"], [(BM, '\t\t\tif err != nil {\n\t\t\t\tlog.Warnf("Header doesn\'t pass sanity check: "+\n\t\t\t\t\t"%s -- disconnecting peer", err)\n\t\t\t\thmsg.peer.Disconnect()\n\n\t\t\t\t// Earlier headers of this message are already\n\t\t\t\t// on the header list but will never be written.\n\t\t\t\tb.resetHeaderListToChainTip()\n\t\t\t\treturn\n\t\t\t}\n\n\t\t\tnode.Height = prevNode.Height + 1', '\t\t\tif err != nil {\n\t\t\t\tlog.Warnf("Header doesn\'t pass sanity check: "+\n\t\t\t\t\t"%s -- disconnecting peer", err)\n\t\t\t}\n\n\t\t\tnode.Height = prevNode.Height + 1')], ["C01.G1"])
 mut("c01-nopow-flag", ["C01"], [(BM, '''		blockHeader, b.cfg.ChainParams.PowLimit, b.cfg.TimeSource,
 		emptyFlags,''', '''		blockHeader, b.cfg.ChainParams.PowLimit, b.cfg.TimeSource,
 		blockchain.BFNoPoWCheck,''')], ["C01.G2"])
@@ -34,18 +22,7 @@ mut("c01-drop-context-check", ["C01"], [(BM, '''	err := blockchain.CheckBlockHea
 ''', '''	_ = parentHeaderCtx
 	_ = chainCtx
 ''')], ["C01.G2"])
-mut("c01-checkpoint-mismatch-break", ["C01"], [(BM, '''				err := b.rollBackToHeight(uint32(
-					prevCheckpoint.Height),
-				)
-				if err != nil {
-					log.Criticalf("Rollback failed: %s",
-						err)
-					// Should we panic here?
-				}
-
-				hmsg.peer.Disconnect()
-				return''', '''				_ = prevCheckpoint
-				break''')], ["C01.G4"])
+mut("c01-checkpoint-mismatch-break", ["C01"], [(BM, '\t\t\t\terr := b.rollBackToHeight(uint32(\n\t\t\t\t\tprevCheckpoint.Height),\n\t\t\t\t)\n\t\t\t\tif err != nil {\n\t\t\t\t\tlog.Criticalf("Rollback failed: %s",\n\t\t\t\t\t\terr)\n\t\t\t\t\t// Should we panic here?\n\t\t\t\t}\n\n\t\t\t\thmsg.peer.Disconnect()\n\n\t\t\t\t// The store is back at the checkpoint and the\n\t\t\t\t// batch is dropped, so the list must follow.\n\t\t\t\tb.resetHeaderListToChainTip()\n\t\t\t\treturn', '\t\t\t\t_ = prevCheckpoint\n\t\t\t\tbreak')], ["C01.G4"])
 mut("c01-new-writer", ["C01"], [], ["C01.W1"], new_files=[("zz_writer.go", '''package neutrino
 
 import "github.com/lightninglabs/neutrino/headerfs"
@@ -67,24 +44,7 @@ mut("c01-donepeer-no-reset", ["C01"], [(BM, '''		b.headerList.ResetHeaderState(h
 		})
 		b.startSync(peers)''', '''		_, _ = header, height
 		b.startSync(peers)''')], ["C01.O2"])
-mut("c01-quiet-switch-form", ["C01", "C02"], [(BM, '''			if err != nil {
-				log.Warnf("Header doesn't pass sanity check: "+
-					"%s -- disconnecting peer", err)
-				hmsg.peer.Disconnect()
-				return
-			}
-
-			node.Height = prevNode.Height + 1''', '''			switch {
-			case err != nil:
-				log.Warnf("Header doesn't pass sanity check: "+
-					"%s -- disconnecting peer", err)
-				hmsg.peer.Disconnect()
-				return
-			}
-
-			node.Height = prevNode.Height + 1''')], [])
-
-# ---- C02 ----
+mut("c01-quiet-switch-form", ["C01", "C02"], [(BM, '\t\t\tif err != nil {\n\t\t\t\tlog.Warnf("Header doesn\'t pass sanity check: "+\n\t\t\t\t\t"%s -- disconnecting peer", err)\n\t\t\t\thmsg.peer.Disconnect()\n\n\t\t\t\t// Earlier headers of this message are already\n\t\t\t\t// on the header list but will never be written.\n\t\t\t\tb.resetHeaderListToChainTip()\n\t\t\t\treturn\n\t\t\t}\n\n\t\t\tnode.Height = prevNode.Height + 1', '\t\t\tswitch {\n\t\t\tcase err != nil:\n\t\t\t\tlog.Warnf("Header doesn\'t pass sanity check: "+\n\t\t\t\t\t"%s -- disconnecting peer", err)\n\t\t\t\thmsg.peer.Disconnect()\n\t\t\t\tb.resetHeaderListToChainTip()\n\t\t\t\treturn\n\t\t\t}\n\n\t\t\tnode.Height = prevNode.Height + 1')], [])
 mut("c02-accept-equal-work", ["C02"], [(BM, '''				hmsg.peer.Disconnect()
 				fallthrough
 			case 0:
